@@ -175,3 +175,51 @@ theorem Path.of_inhabited {G : σ → Prog σ α → Prop} {K : σ → Prop} {p 
   · exact Path.absurd p (fun s hs => he ⟨s, hs⟩)
 
 end Placement.Crash
+
+namespace Placement.Crash
+open Placement Placement.Sched
+variable {σ α : Type}
+
+/-- a `Path` program all of whose transactions are moreover `Q`-steps carries every `Q`-stable
+predicate along -/
+theorem Path.and_all {G : σ → Prog σ α → Prop} {Q : σ → σ → Prop} {I : σ → Prop}
+    (hI : ∀ s s', Q s s' → I s → I s') {K : σ → Prop} {p : Prog σ α} (hp : Path G K p) (ha : All Q p) :
+    Path (fun s q => G s q ∧ I s) (fun s => K s ∧ I s) p := by
+  induction hp with
+  | done K a => exact .done _ a
+  | txn K l f K' h1 h2 ih =>
+    refine .txn _ l f (fun s s' => K' s s' ∧ I s') ?_ ?_
+    · rintro s ⟨hk, hi⟩
+      have hi' := hI _ _ (ha.step s).1 hi
+      exact ⟨⟨(h1 s hk).1, hi'⟩, (h1 s hk).2, hi'⟩
+    · rintro s ⟨hk, hi⟩
+      exact ih s hk (ha.step s).2
+
+/-- the configuration predicate may be weakened -/
+theorem Path.mono {G G' : σ → Prog σ α → Prop} (hG : ∀ s q, G s q → G' s q) {K : σ → Prop} {p : Prog σ α}
+    (hp : Path G K p) : Path G' K p := by
+  induction hp with
+  | done K a => exact .done _ a
+  | txn K l f K' h1 h2 ih =>
+    exact .txn _ l f K' (fun s hk => ⟨hG _ _ (h1 s hk).1, (h1 s hk).2⟩) ih
+
+end Placement.Crash
+
+namespace Placement.Crash
+open Placement Placement.Sched
+variable {σ α : Type}
+
+/-- the state the next transaction of `p` leaves when it is run on `s` (any state, not necessarily the
+one the request has reached) -/
+def nextOn (p : Prog σ α) (s : σ) : σ :=
+  match p with
+  | .done _ => s
+  | .txn _ f => (f s).1
+
+theorem All.nextOn {Q : σ → σ → Prop} (hr : ∀ s, Q s s) {p : Prog σ α} (h : All Q p) (s : σ) :
+    Q s (nextOn p s) := by
+  cases h with
+  | done a => exact hr s
+  | txn l f h1 _ => exact h1 s
+
+end Placement.Crash
